@@ -7,12 +7,38 @@ package chain
 import (
 	"fmt"
 	"sync"
+	"time"
+
+	"github.com/ipfs/go-cid"
+	"github.com/ucan-wg/go-ucan/token/delegation"
 
 	"pgregory.net/rapid"
 
 	"verif/harness/h"
 	"verif/harness/pol"
 )
+
+type slowLoader struct {
+	inner delegation.Loader
+	d     time.Duration
+}
+
+func (s slowLoader) GetDelegation(c cid.Cid) (*delegation.Token, error) {
+	time.Sleep(s.d)
+	return s.inner.GetDelegation(c)
+}
+
+type lackingLoader struct {
+	inner delegation.Loader
+	hide  cid.Cid
+}
+
+func (l lackingLoader) GetDelegation(c cid.Cid) (*delegation.Token, error) {
+	if c == l.hide {
+		return nil, delegation.ErrDelegationNotFound
+	}
+	return l.inner.GetDelegation(c)
+}
 
 type ConcChains struct {
 	Cases      []Case `json:"cases"`
@@ -38,6 +64,26 @@ func RunConcChains(c *h.Ctx, cc ConcChains, owner string) {
 		}
 		ls = append(ls, live{b, r, cs})
 	}
+	// twins: the SAME invocation and proof CIDs checked at the same time against a store that lacks one of the
+	// delegations (each conforming chain gets one). Both stores take their time over a lookup, so that lookups of the
+	// same CID by different checks overlap. What one check's store holds is nothing to the other check.
+	var pairs [][2]int // (index of the chain with its full store, index of its twin)
+	for i, l := range append([]live{}, ls...) {
+		if !l.r.All(1, 9) || len(l.b.Cids) == 0 {
+			continue
+		}
+		pairs = append(pairs, [2]int{i, len(ls)})
+		full := *l.b
+		full.Loader = slowLoader{inner: l.b.Loader, d: time.Duration(150+37*i) * time.Microsecond}
+		ls[i].b = &full
+		lacking := *l.b
+		lacking.Loader = slowLoader{inner: lackingLoader{inner: l.b.Loader, hide: l.b.Cids[i%len(l.b.Cids)]}, d: time.Duration(120+11*i) * time.Microsecond}
+		r2 := l.r
+		r2.R[2] = false
+		cs2 := l.cs
+		cs2.Dev = append(append([]string{}, l.cs.Dev...), fmt.Sprintf("twin-store-lacks-delegation-%d", i%len(l.b.Cids)))
+		ls = append(ls, live{&lacking, r2, cs2})
+	}
 	if len(ls) < 2 {
 		return
 	}
@@ -46,6 +92,12 @@ func RunConcChains(c *h.Ctx, cc ConcChains, owner string) {
 	pv := h.Concurrently(cc.Goroutines, func(g int) {
 		for rd := 0; rd < cc.Rounds; rd++ {
 			l := ls[(g+rd)%len(ls)]
+			if len(pairs) > 0 && rd%2 == 1 {
+				// every other round: goroutines 2k and 2k+1 check the same chain at the same moment, one against the
+				// full store, one against the store that lacks a delegation
+				pr := pairs[(rd/2+g/2)%len(pairs)]
+				l = ls[pr[g%2]]
+			}
 			var d Decision
 			if (g+rd)%3 == 0 {
 				d = DecideIdentityHook(l.b)
